@@ -106,7 +106,7 @@ char * snoopy_util_pwd_convertUidToUsername (uid_t uid)
 
     // Format the return
     if (NULL == pwd_uid) {
-        snprintf(username, LOGIN_NAME_MAX, "user-%d", (int)uid);
+        snprintf(username, LOGIN_NAME_MAX, "user-%u", (unsigned int)uid);
     } else {
         snprintf(username, LOGIN_NAME_MAX, "%s", pwd_uid->pw_name);
     }
